@@ -117,6 +117,27 @@ def r06_3(ctx):
         return False
     ok = len(ss) == 1 and len(sf) == 1 and has_tok(ss[0][1]) and has_tok(sf[0][1])
     ctx.ob("R06.3", "rawnum:token-channel", ok, f.loc(), "the RawNum arm emits through serialize_struct(TOKEN) + serialize_field(TOKEN, raw) with the raw-number token")
+    # exclusivity: on the raw-number arm nothing else is handed to the serializer (no re-rendering through
+    # serialize_i64 / u64 / f64 / str of a parsed copy)
+    if ss:
+        sb = ss[0][0]
+        adt = prog.adts.get("sonic_rs::value::node::ValueRefInner")
+        raw_discr = [int(v["discr"]) for v in adt["variants"] if v["name"] == "RawNum"] if adt else []
+        arm = None
+        for b, t in f.terms():
+            if t["k"] == "switch" and f.dominates(b, sb) and raw_discr:
+                for v, x in t["targets"]:
+                    if int(v) == raw_discr[0] and (x == sb or f.dominates(x, sb)):
+                        arm = x
+        others = []
+        if arm is not None:
+            for b, t in f.calls():
+                nm = t["callee"].rsplit("::", 1)[-1]
+                if (b == arm or f.dominates(arm, b)) and nm.startswith("serialize_") and nm not in ("serialize_struct", "serialize_field"):
+                    others.append(nm)
+        ctx.ob("R06.3", "rawnum:nothing-but-the-raw-channel", arm is not None and not others, f.loc(ss[0][1]["ln"]),
+               "on the raw-number arm the text goes to the serializer only through the raw channel" if arm is not None and not others else
+               (f"the raw-number arm also serializes through {sorted(set(others))}: the literal is re-rendered instead of copied (-0 becomes 0, exponents are normalised)" if others else "raw-number arm not found (fail closed)"))
     ssf = [g for g in prog.fns.values() if g.crate == "sonic_rs" and g.name == "serialize_struct" and (g.self_adt or "").endswith("serde::ser::Serializer")]
     byt = set()
     for g in ssf:
